@@ -336,6 +336,1438 @@ class C02(Prop):
         return bad
 
 
+
+# ==========================================================================================
+# C05 transport totality
+# ==========================================================================================
+def has_panic(o):
+    return bool(re.search(r"(^|[;:|\[{(!])P($|[;|\]})])", o)) or "HARNESS-ERROR" in o or "NO-OUTPUT" in o or o == "panic"
+
+
+class C05(Prop):
+    pid = "C05"
+    theorems = [("C05_total", None)]
+    suite_names = "S-DEC/S-FRONT/S-ENC/S-IO (dec, fdecode, fstream, rt, enci, encb, rd)"
+    rule = ("all transport suites in debug (overflow checks on) and release: adversarial streams with interleaved finalize/reset/new, "
+            "capacities incl. 0, noise runs of 2^16-2..2^16+2 and 2^17 bytes, payloads up to 8196 (thorough 65540), reader call "
+            "sequences with faults. non-trivial = the case produced at least one event")
+
+    def cases(self, tier, rng):
+        out = stream_cases(rng, 1200 if tier == "quick" else 12000)
+        for c in out:
+            pass
+        n = 300 if tier == "quick" else 3000
+        for _ in range(n):
+            p = gen.payload(rng, thorough=(tier == "thorough"))
+            out.append(Case("rt %s %s" % (rng.choice(["-", "0", "1", "4", "64", "8192"]), hx(p)), "rt"))
+            out.append(Case("enci 2 " + hx(p), "enci"))
+            out.append(Case("encb %d %s" % (rng.choice(gen.CAP_MENU), hx(p)), "encb"))
+        # long noise runs around the former 16-bit counter limit, followed by a frame
+        f = gen.frame(b"\x12\x34\x56\x78")
+        for ln in [65533, 65534, 65535, 65536, 65537, 131072, 196609]:
+            for fill in (0x55, 0x1b):
+                out.append(Case("dec - x%s,x%s,F" % (hx(bytes([fill]) * ln), hx(f)), "longnoise"))
+                out.append(Case("dec 4 x%s,F,x%s,R" % (hx(bytes([fill]) * ln), hx(f)), "longnoise"))
+            out.append(Case("fdecode " + hx(bytes([0x55]) * ln + f), "longnoise"))
+            out.append(Case("rd io 8 x%s,x%s nbnbnb" % (hx(bytes([0x55]) * ln), hx(f)), "longnoise"))
+        out += reader_cases(rng, 400 if tier == "quick" else 4000)
+        return out
+
+    def project(self, case, out):
+        return "panic" if has_panic(out) else "ok"
+
+    def nontrivial(self, case, out):
+        return out not in (".", "", ".|.")
+
+    def oracle(self, cases, dbg, rel, spec):
+        bad = []
+        for i, c in enumerate(cases):
+            for prof, o in both(dbg, rel, i):
+                if has_panic(o):
+                    bad.append(dict(case=c.line, why="%s build: a transport entry point panicked / did not return: %s" % (prof, o[:300])))
+                    break
+        return bad
+
+
+# ==========================================================================================
+# reader cases (shared by C05, C10, C11, C15)
+# ==========================================================================================
+RD_CAPS = ["-", "default", "8192", "1024", "256", "64", "32", "16", "8", "4", "0"]
+
+
+def model_line(line):
+    return line.replace(" default ", " 8192 ") if line.startswith("rd ") else line
+
+
+def transmission(rng, sml=True, maxpay=40, bad=0.15, with_noise=0.5):
+    """a sequence of frames (SML files or raw payloads), optionally separated by noise; returns (bytes, parts)"""
+    parts = []
+    out = bytearray()
+    for _ in range(rng.randint(0, 3)):
+        g = gen.clean_noise(rng, 10) if rng.random() < with_noise else b""
+        if sml and rng.random() < 0.8:
+            d, text, evs, _ = gen.gen_file(rng, rng.choice([1, 2, 3]))
+        else:
+            d, text, evs = gen.payload(rng, rng.randint(0, maxpay)), None, None
+        if rng.random() < bad:
+            f = gen.bad_frame(rng, d)
+            parts.append(("bad", g, d, None, None))
+        else:
+            f = gen.frame(d)
+            parts.append(("frame", g, d, text, evs))
+        out += g + f
+    return bytes(out), parts
+
+
+def fault_tokens(rng, s, kind, p=0.5, maxchunk=30):
+    toks = []
+    i = 0
+    menu = ["W", "W", "I", "O", "Z"] if kind == "io" else ["W", "W", "O"]
+    if rng.random() < 0.3:
+        toks.append(rng.choice(menu))
+    while i < len(s):
+        j = min(len(s), i + rng.randint(1, maxchunk))
+        toks.append("x" + hx(s[i:j]))
+        i = j
+        if rng.random() < p:
+            for _ in range(rng.randint(1, 2)):
+                toks.append(rng.choice(menu))
+    return toks
+
+
+def reader_cases(rng, n, faults=True):
+    out = []
+    for _ in range(n):
+        s, parts = transmission(rng)
+        if rng.random() < 0.3:
+            s += gen.noise(rng, 6)
+        kind = rng.choice(["slice", "iter", "io", "eh"])
+        if faults and kind in ("io", "eh") and rng.random() < 0.7:
+            toks = fault_tokens(rng, s, kind)
+        else:
+            toks = ["x" + hx(s)] if s else []
+        calls = "".join(rng.choice("rnRN" if kind != "eh" else "rR") + rng.choice("bfp") for _ in range(rng.randint(1, 14)))
+        cap = rng.choice(RD_CAPS)
+        out.append(Case("rd %s %s %s %s" % (kind, cap, ",".join(toks) or "x.", calls), "rd-" + kind, dict(s=s)))
+    return out
+
+
+# ==========================================================================================
+# C08 resynchronisation
+# ==========================================================================================
+class C08(Prop):
+    pid = "C08"
+    theorems = [("C08_noise", None)]
+    suite_names = "S-DEC (dec)"
+    rule = ("idle decoder histories (new / after a delivered frame / after junk+reset / junk+finalize / from_buf) x noise g with the "
+            "start sequence occurring in g++start only at |g| (random, 5-symbol alphabet, ending in 1-7 0x1b, in a partial start "
+            "sequence, in >=4 0x1b + 0-3 01) x payload m; and frames cut where no 0x1b run/escape is in progress, followed by a frame. "
+            "non-trivial = noise or cut part non-empty")
+
+    def cases(self, tier, rng):
+        n = 1500 if tier == "quick" else 15000
+        out = []
+        for _ in range(n):
+            m = gen.payload(rng, rng.randint(0, 40))
+            fam = rng.random()
+            cap = rng.choice(["-", str(gen.cap_at_least(len(m))), "64", "8192"])
+            if cap != "-" and int(cap) < len(m):
+                cap = "-"
+            if fam < 0.7:
+                g = gen.clean_noise(rng, 30)
+                pk = rng.randrange(5)
+                junk = gen.noise(rng, 20)
+                pre = ["", "x" + hx(gen.frame(gen.payload(rng, rng.randint(0, min(20, len(m)))))), "x%s,R" % hx(junk), "x%s,F" % hx(junk), "N"][pk]
+                if pk == 1 and cap != "-":
+                    cap = "64" if len(m) <= 64 else "-"
+                ops = ",".join(x for x in [pre, "x" + hx(g) if g else "", "x" + hx(gen.frame(m))] if x)
+                out.append(Case("dec %s %s" % (cap, ops), "noise-" + ["new", "afterframe", "reset", "finalize", "frombuf"][pk],
+                                dict(pre=pre, g=g, m=m)))
+            else:
+                q = gen.payload(rng, rng.randint(0, 40))
+                js = [j for j in range(len(q) + 1) if j == 0 or q[j - 1] != 0x1b]
+                j = rng.choice(js)
+                cut = gen.START + gen.esc(q[:j])
+                if cap != "-" and int(cap) < max(len(q), len(m)):
+                    cap = "-"
+                out.append(Case("dec %s x%s,x%s" % (cap, hx(cut), hx(gen.frame(m))), "cutoff", dict(pre="", g=cut, m=m, cut=True)))
+        if tier == "thorough":
+            x = bytes([0x12, 0x34])
+            for b in gen.small_bodies(7):
+                if (b + gen.START).find(gen.START) == len(b):
+                    out.append(Case("dec - x%s,x%s" % (hx(b), hx(gen.frame(x))) if b else "dec - x" + hx(gen.frame(x)), "small-noise", dict(pre="", g=b, m=x)))
+        return out
+
+    def project(self, case, out):
+        return ";".join("%d:%s%s" % e for e in parse_events(out) if e[1] in "MPE" and (e[1] != "E" or e[2][:1] == "D"))
+
+    def nontrivial(self, case, out):
+        return len(case.meta.get("g", b"")) > 0
+
+    def oracle(self, cases, dbg, rel, spec):
+        bad = []
+        for i, c in enumerate(cases):
+            if "g" not in c.meta:
+                continue
+            g, m, pre = c.meta["g"], c.meta["m"], c.meta["pre"]
+            npre = len(parse_ops(pre))
+            fl = len(gen.frame(m))
+            for prof, o in both(dbg, rel, i):
+                evs = [e for e in parse_events(o) if e[0] >= npre]
+                exp = []
+                if len(g):
+                    exp.append((npre + len(g) + 7, "E", "D%d" % len(g)))
+                exp.append((npre + len(g) + fl - 1, "M", hx(m)))
+                if evs != exp:
+                    bad.append(dict(case=c.line, why="%s build: after %d noise/cut-off bytes the frame was not delivered with exactly one discarded-bytes report: got %s expected %s" % (prof, len(g), evs[:6], exp)))
+                    break
+        return bad
+
+
+# ==========================================================================================
+# C14 no memory across boundaries
+# ==========================================================================================
+BOUNDARY_KINDS = "MFRN"
+
+
+def is_boundary_event(ev):
+    idx, k, rest = ev
+    if k in "MFRN":
+        return True
+    if k == "E" and rest[:1] in "IXO":
+        return True
+    return False
+
+
+class C14(Prop):
+    pid = "C14"
+    theorems = [("C14_boundary", None)]
+    suite_names = "S-DEC (dec)"
+    rule = ("triples (prefix ending at a boundary event: delivered frame, InvalidMessage, InvalidEsc, OutOfMemory, reset, finalize, "
+            "from_buf) x continuation streams chosen to expose leaked state (zeros, 0x1b runs, end sequences, frames, partial start "
+            "sequences); the used decoder on the continuation is compared with a fresh decoder. non-trivial = the prefix really ended "
+            "at a boundary and the continuation produced an event")
+
+    def cases(self, tier, rng):
+        n = 900 if tier == "quick" else 9000
+        out = []
+        for k in range(n):
+            s, desc = gen.stream(rng, maxpay=24, nseg=rng.randint(1, 3))
+            r = rng.random()
+            if r < 0.45:
+                pre = "x" + hx(s) if s else ""
+            elif r < 0.75:
+                cutp = s[:rng.randint(0, len(s))]
+                pre = ",".join(x for x in ["x" + hx(cutp) if cutp else "", rng.choice(["F", "R", "N"])] if x)
+            else:
+                p = gen.payload(rng, rng.randint(5, 30))
+                pre = "x" + hx(gen.frame(p))
+            cap = rng.choice(["-", "4", "8", "16", "32", "64"])
+            # continuation
+            cr = rng.random()
+            if cr < 0.3:
+                cont, _ = gen.stream(rng, maxpay=16, nseg=rng.randint(1, 2))
+            elif cr < 0.5:
+                m = gen.payload(rng, rng.randint(0, 16))
+                cont = gen.end_seq(bytes(rng.randint(0, 4)) + m, rng.randint(0, 3))[len(m):] if False else gen.frame(m)
+            elif cr < 0.65:
+                cont = bytes(rng.randint(1, 6)) + bytes([0x1b] * 4 + [0x1a, rng.randint(0, 3), rng.getrandbits(8), rng.getrandbits(8)])
+            elif cr < 0.8:
+                cont = gen.START[rng.randint(1, 7):] + gen.payload(rng, rng.randint(0, 8)) + gen.end_seq(b"", 0)[-8:]
+            else:
+                cont = gen.noise(rng, 12) + gen.frame(gen.payload(rng, rng.randint(0, 12)))
+            if not cont:
+                cont = b"\x00"
+            cont_ops = "x" + hx(cont) + ",F"
+            out.append(Case("dec %s %s" % (cap, pre or "x."), "prefix", dict(grp=k, role="pre")))
+            out.append(Case("dec %s %s" % (cap, ",".join(x for x in [pre, cont_ops] if x)), "prefix+cont", dict(grp=k, role="both", npre=len(parse_ops(pre)))))
+            out.append(Case("dec %s %s" % (cap, cont_ops), "cont", dict(grp=k, role="cont")))
+        return out
+
+    def nontrivial(self, case, out):
+        return case.meta.get("role") == "both" and out != "."
+
+    def oracle(self, cases, dbg, rel, spec):
+        bad = []
+        groups = {}
+        for i, c in enumerate(cases):
+            if "grp" in c.meta:
+                groups.setdefault(c.meta["grp"], {})[c.meta["role"]] = i
+        self.boundary_hits = 0
+        for g, d in groups.items():
+            if len(d) != 3:
+                continue
+            for prof, outs in (("debug", dbg), ("release", rel)):
+                pre_evs = parse_events(outs[d["pre"]])
+                npre = cases[d["both"]].meta["npre"]
+                if npre > 0:
+                    if not pre_evs or pre_evs[-1][0] != npre - 1 or not is_boundary_event(pre_evs[-1]):
+                        continue
+                self.boundary_hits += 1
+                both_evs = [(e[0] - npre, e[1], e[2]) for e in parse_events(outs[d["both"]]) if e[0] >= npre]
+                cont_evs = parse_events(outs[d["cont"]])
+                if both_evs != cont_evs:
+                    bad.append(dict(case=cases[d["both"]].line + " || " + cases[d["cont"]].line,
+                                    why="%s build: after a boundary the decoder behaves differently from a new one: used %s fresh %s" % (prof, both_evs[:6], cont_evs[:6])))
+                    break
+        return bad
+
+
+# ==========================================================================================
+# C15 all front-ends agree
+# ==========================================================================================
+def norm_results(kind, o):
+    """-> list of result strings, trailing leftover normalised to ('LEFT', n)"""
+    if "P" == o or has_panic(o):
+        return ["PANIC"]
+    if kind == "dec":
+        res = []
+        for (i, k, r) in parse_events(o):
+            if k == "M":
+                res.append("M" + r)
+            elif k == "E":
+                res.append("E" + r)
+            elif k == "F":
+                if r != "-":
+                    res.append("LEFT" + r[2:])      # FED<n>
+        return res
+    if kind == "fdecode":
+        items = [] if o == "." else o.split(";")
+    elif kind == "fstream":
+        items = [] if o.split("|")[0] == "." else o.split("|")[0].split(";")
+    else:  # rd with next-bytes calls
+        items = [x for x in o.split(";") if x != "-"]
+    res = []
+    for x in items:
+        if x.startswith("IOEof:"):
+            res.append("LEFT" + x[6:])
+        else:
+            res.append(x)
+    # a trailing DiscardedBytes from finalize is the leftover report of decode/decode_streaming
+    return res
+
+
+class C15(Prop):
+    pid = "C15"
+    theorems = [("C15_frontends", None)]
+    suite_names = "S-FRONT (dec+finalize, fdecode, fstream, rd slice/iter/io)"
+    rule = ("byte streams from G-STREAM (frames, corrupted frames with recomputed CRC, noise, trailing partial data); every front-end "
+            "(push decoder + finalize, decode, decode_streaming, SmlReader over slice / iterator / io::Read calling next::<DecodedBytes> "
+            "until None) x buffers {Vec, ArrayBuf<N>, N >= |s|}; results compared pairwise, the trailing leftover report normalised "
+            "(DiscardedBytes(n) from finalize vs IoErr(Eof, n)). non-trivial = at least one result")
+
+    def cases(self, tier, rng):
+        n = 700 if tier == "quick" else 7000
+        out = []
+        for k in range(n):
+            s, desc = gen.stream(rng, maxpay=30)
+            if rng.random() < 0.3:
+                s = s[:rng.randint(0, len(s))]
+            caps = ["-"] + [str(c) for c in [16, 32, 64, 256, 1024, 8192] if c >= len(s)]
+            bigcaps = ["-"] + [str(c) for c in gen.CAP_MENU if c >= len(s)][:6]
+            h = hx(s)
+            ncalls = "nb" * (len(s) // 8 + 4)
+            out.append(Case("dec %s x%s,F" % (rng.choice(bigcaps), h), "dec", dict(grp=k, fe="dec")))
+            out.append(Case("fdecode " + h, "fdecode", dict(grp=k, fe="fdecode")))
+            out.append(Case("fstream %s 2 %s" % (rng.choice(bigcaps), h), "fstream", dict(grp=k, fe="fstream")))
+            for kind in ("slice", "iter", "io"):
+                out.append(Case("rd %s %s x%s %s" % (kind, rng.choice(caps + ["default"] if len(s) <= 8192 else caps), h, ncalls), "rd-" + kind, dict(grp=k, fe="rd")))
+        return out
+
+    def nontrivial(self, case, out):
+        return out not in (".", ".|-;-", "")
+
+    def oracle(self, cases, dbg, rel, spec):
+        bad = []
+        groups = {}
+        for i, c in enumerate(cases):
+            if "grp" in c.meta:
+                groups.setdefault(c.meta["grp"], []).append(i)
+        for g, idxs in groups.items():
+            for prof, outs in (("debug", dbg), ("release", rel)):
+                ref = None
+                for i in idxs:
+                    r = norm_results(cases[i].meta["fe"], outs[i])
+                    # decode()/decode_streaming report the leftover as a trailing DiscardedBytes error
+                    if cases[i].meta["fe"] in ("fdecode", "fstream") and r and r[-1].startswith("ED"):
+                        pass
+                    if ref is None:
+                        ref = (i, r)
+                    elif not same_results(ref[1], r):
+                        bad.append(dict(case=cases[ref[0]].line + " || " + cases[i].line,
+                                        why="%s build: front-ends disagree: %s vs %s" % (prof, ref[1][:8], r[:8])))
+                        break
+                else:
+                    continue
+                break
+        return bad
+
+
+def same_results(a, b):
+    """equal up to the representation of the final leftover report: LEFTn == trailing EDn"""
+    def canon(r):
+        r = list(r)
+        if r and r[-1].startswith("LEFT"):
+            r[-1] = "TAIL" + r[-1][4:]
+        elif r and r[-1].startswith("ED"):
+            r[-1] = "TAIL?" + r[-1][2:]
+        return r
+    ca, cb = canon(a), canon(b)
+    if len(ca) != len(cb):
+        # a front-end with explicit leftover vs one where the trailing ED might be a genuine mid-stream discard
+        return False
+    for x, y in zip(ca[:-1], cb[:-1]):
+        if x != y:
+            return False
+    if not ca:
+        return True
+    x, y = ca[-1], cb[-1]
+    nx = x.replace("TAIL?", "").replace("TAIL", "")
+    ny = y.replace("TAIL?", "").replace("TAIL", "")
+    if x.startswith("TAIL") or y.startswith("TAIL"):
+        return x.startswith("TAIL") and y.startswith("TAIL") and nx == ny
+    return x == y
+
+
+# ==========================================================================================
+# C16 buffer need = payload length
+# ==========================================================================================
+class C16(Prop):
+    pid = "C16"
+    theorems = [("C16_exact", None)]
+    suite_names = "S-DEC (dec, rd)"
+    rule = ("payloads (esp. ending in zero runs / 0x1b runs) x fixed capacities N around |m| from the menu (N = |m| exactly, N < |m|, "
+            "N = |m|+1), incl. the default 8 KiB reader buffer with payloads of 8190..8194 bytes; each frame is followed by a second "
+            "frame that fits. non-trivial = payload non-empty")
+
+    def cases(self, tier, rng):
+        n = 1200 if tier == "quick" else 12000
+        out = []
+        for _ in range(n):
+            r = rng.random()
+            if r < 0.6:
+                L = rng.choice([c for c in gen.CAP_MENU if c <= 64])
+            elif r < 0.9:
+                L = rng.choice([c for c in gen.CAP_MENU if 64 < c <= 1028])
+            else:
+                L = rng.choice([8188, 8189, 8190, 8191, 8192, 8193, 8194])
+            d = rng.choice([0, 0, 0, 1, 1, 2, 3, -1])      # payload longer than the capacity by d
+            ml = max(0, L + d)
+            m = gen.payload(rng, ml)
+            q = gen.payload(rng, rng.randint(0, min(L, 12)))
+            out.append(Case("dec %d x%s,x%s" % (L, hx(gen.frame(m)), hx(gen.frame(q))), "exact" if d <= 0 else "toosmall",
+                            dict(m=m, q=q, N=L)))
+        for ml in [8190, 8191, 8192, 8193, 8194]:
+            for _ in range(2 if tier == "quick" else 10):
+                m = gen.payload(rng, ml)
+                out.append(Case("rd slice default x%s nbnb" % hx(gen.frame(m)), "default8k", dict(m=m, N=8192, rd=True)))
+        if tier == "thorough":
+            for b in gen.small_bodies(6):
+                for N in range(0, len(b) + 2):
+                    out.append(Case("dec %d x%s,x%s" % (N, hx(gen.frame(b)), hx(gen.frame(b"\x07" * min(N, 1)))), "small", dict(m=b, q=b"\x07" * min(N, 1), N=N)))
+        return out
+
+    def nontrivial(self, case, out):
+        return len(case.meta.get("m", b"")) > 0
+
+    def project(self, case, out):
+        if case.line.startswith("dec "):
+            evs = parse_events(out)
+            oom = [e for e in evs if e[1] == "E" and e[2] == "O"]
+            return ";".join("%d:%s%s" % e for e in evs if e[1] in "MP") + ("#oom" if oom else "")
+        return out
+
+    def oracle(self, cases, dbg, rel, spec):
+        bad = []
+        for i, c in enumerate(cases):
+            if "m" not in c.meta:
+                continue
+            m, N = c.meta["m"], c.meta["N"]
+            fl = len(gen.frame(m))
+            for prof, o in both(dbg, rel, i):
+                why = None
+                if c.meta.get("rd"):
+                    exp = ("M%s;-" % hx(m)) if len(m) <= N else None
+                    if exp is not None and o != exp:
+                        why = "payload of %d bytes not delivered through the %d-byte reader buffer: %s" % (len(m), N, o[:200])
+                    if exp is None and (not o.startswith("EO") or "M" in o.split(";")[0]):
+                        why = "payload of %d bytes in a %d-byte buffer did not yield OutOfMemory first: %s" % (len(m), N, o[:200])
+                else:
+                    q = c.meta["q"]
+                    evs = parse_events(o)
+                    first = [e for e in evs if e[0] < fl]
+                    if len(m) <= N:
+                        exp = [(fl - 1, "M", hx(m)), (fl + len(gen.frame(q)) - 1, "M", hx(q))]
+                        if evs != exp:
+                            why = "payload of %d bytes in capacity %d: expected exactly the two payloads, got %s" % (len(m), N, evs[:6])
+                    else:
+                        if not first or first[0][1:] != ("E", "O"):
+                            why = "payload of %d bytes in capacity %d: first event is not OutOfMemory: %s" % (len(m), N, evs[:6])
+                        elif any(e[1] == "M" and e[0] < fl and unhx(e[2]) != m for e in evs) and False:
+                            why = "altered payload"
+                        else:
+                            # a payload reported inside the first frame must not be a shortened/altered version of m
+                            for e in first:
+                                if e[1] == "M":
+                                    why = "a payload (%s) was reported from a frame that does not fit the buffer" % e[2][:60]
+                            # ready for the next frame: when the rest of the frame is clean noise, q is delivered
+                            idx = first[0][0]
+                            left = gen.frame(m)[idx + 1:]
+                            if why is None and (left + gen.START).find(gen.START) == len(left):
+                                tail = [e for e in evs if e[0] >= fl]
+                                exp = ([(fl + 7, "E", "D%d" % len(left))] if left else []) + [(fl + len(gen.frame(q)) - 1, "M", hx(q))]
+                                mid = [e for e in evs if idx < e[0] < fl]
+                                if tail != exp or mid:
+                                    why = "after OutOfMemory the next frame was not delivered as by a fresh decoder: %s (expected %s)" % (evs[:6], exp)
+                if why:
+                    bad.append(dict(case=c.line, why="%s build: %s" % (prof, why)))
+                    break
+        return bad
+
+
+# ==========================================================================================
+# C17 every byte accounted for once
+# ==========================================================================================
+def tiles(case_line, o):
+    """the byte-accounting monitor of DESIGN C17 on a `dec` event sequence; returns None or a complaint"""
+    ops = parse_ops(case_line.split(" ", 2)[2])
+    evs = {e[0]: e for e in parse_events(o)}
+    consumed = 0     # bytes pushed so far
+    covered = 0      # bytes accounted for
+    for i, op in enumerate(ops):
+        e = evs.get(i)
+        if op[0] == "x":
+            consumed += 1
+            if e is None:
+                continue
+            if e[1] == "E" and e[2][0] == "D":
+                n = int(e[2][1:])
+                # reported when a start sequence completes: covers up to its first byte
+                if covered + n != consumed - 8:
+                    return "op %d: DiscardedBytes(%d) but %d bytes lie between the last boundary and the start sequence" % (i, n, consumed - 8 - covered)
+                covered = consumed - 8
+            elif e[1] == "M":
+                covered = consumed
+            elif e[1] == "E":          # InvalidMessage / InvalidEsc / OutOfMemory: the frame in flight is rejected
+                covered = consumed
+        else:
+            if e is None:
+                return "op %d: no event for %s" % (i, op[0])
+            if op[0] == "F":
+                n = 0 if e[2] == "-" else int(e[2][2:])
+            elif op[0] == "R":
+                n = int(e[2])
+            else:
+                n = consumed - covered      # from_buf: a new decoder, nothing reported
+            if covered + n != consumed:
+                return "op %d: %s reports %d leftover bytes but %d are unaccounted" % (i, op[0], n, consumed - covered)
+            covered = consumed
+    return None
+
+
+class C17(Prop):
+    pid = "C17"
+    theorems = [("C17_tiles", None)]
+    suite_names = "S-DEC/S-IO (dec, rd)"
+    rule = ("adversarial streams with interleaved finalize/reset, every stream ending in finalize; long noise runs 2^16-2..2^16+2 and "
+            "2^17+1; reader runs over io::Read with Other/EOF faults where the counts attached to I/O errors are checked against the "
+            "bytes consumed. The monitor: each DiscardedBytes(n) covers exactly the bytes between the previous boundary and the start "
+            "sequence that triggered it; finalize/reset/IoErr counts cover exactly the rest. non-trivial = at least one count reported")
+
+    def cases(self, tier, rng):
+        n = 2000 if tier == "quick" else 20000
+        out = []
+        for _ in range(n):
+            s, desc = gen.stream(rng, maxpay=30)
+            if rng.random() < 0.4:
+                s += gen.noise(rng, 10)
+            cap = rng.choice(["-", "0", "4", "8", "16", "32", "64", "8192"])
+            ops = gen.ops_of_stream(s, rng, 0.3 if rng.random() < 0.4 else 0.0)
+            ops = ",".join(x for x in [ops, rng.choice(["F", "R"])] if x)
+            out.append(Case("dec %s %s" % (cap, ops), "dec"))
+        f = gen.frame(b"\x12\x34\x56\x78")
+        for ln in [65534, 65535, 65536, 65537, 65538, 131073]:
+            for fill in (0x55, 0x1b, 0x01):
+                out.append(Case("dec - x%s,x%s,F" % (hx(bytes([fill]) * ln), hx(f)), "longnoise"))
+                out.append(Case("dec - x%s,F" % hx(bytes([fill]) * ln), "longnoise"))
+                out.append(Case("dec - x%s,R" % hx(bytes([fill]) * ln), "longnoise"))
+        out += io_count_cases(rng, 500 if tier == "quick" else 5000)
+        return out
+
+    def project(self, case, out):
+        if case.line.startswith("dec "):
+            r = []
+            for (i, k, rest) in parse_events(out):
+                if k == "E" and rest[0] in "IX":
+                    rest = rest[0]
+                r.append("%d:%s%s" % (i, k, rest))
+            return ";".join(r)
+        return out
+
+    def nontrivial(self, case, out):
+        return bool(re.search(r"D\d|R\d|IO", out))
+
+    def oracle(self, cases, dbg, rel, spec):
+        bad = []
+        for i, c in enumerate(cases):
+            for prof, o in both(dbg, rel, i):
+                why = None
+                if c.line.startswith("dec "):
+                    why = tiles(c.line, o)
+                elif "iocount" in c.meta:
+                    why = io_count_check(c, o)
+                if why:
+                    bad.append(dict(case=c.line, why="%s build: %s" % (prof, why)))
+                    break
+        return bad
+
+
+def io_count_cases(rng, n):
+    """reader over io::Read: noise/partial data, then a fault (Other or EOF); the count must equal the bytes since the last report"""
+    out = []
+    for _ in range(n):
+        pieces = []
+        expect = []
+        for _k in range(rng.randint(1, 4)):
+            kind = rng.random()
+            if kind < 0.35:
+                g = gen.clean_noise(rng, 20)
+                g = bytes(b for b in g)
+                # noise that never starts a frame: report = its length at the fault
+                pieces.append(("x" + hx(g)) if g else "")
+                n_unrep = len(g)
+            elif kind < 0.7:
+                q = bytes(b for b in gen.payload(rng, rng.randint(0, 20)))
+                cut = gen.START + gen.esc(q)
+                pieces.append("x" + hx(cut))
+                n_unrep = len(cut)
+            else:
+                g = gen.clean_noise(rng, 10)
+                q = gen.payload(rng, rng.randint(0, 10))
+                cut = gen.START + gen.esc(q)
+                pieces.append("x" + hx(g + cut))
+                # the noise is reported (DiscardedBytes) when the start sequence completes; the fault reports the cut frame
+                n_unrep = (len(g), len(cut)) if g else len(cut)
+            fault = rng.choice(["O", "Z"])
+            pieces.append(fault)
+            expect.append((n_unrep, fault))
+        evs = ",".join(p for p in pieces if p)
+        calls = "rb" * (2 * len(expect) + 2)
+        out.append(Case("rd io %s %s %s" % (rng.choice(["-", "64", "8192"]), evs, calls), "io-count", dict(iocount=expect)))
+    return out
+
+
+def io_count_check(c, o):
+    items = o.split(";")
+    exp = []
+    for n_unrep, fault in c.meta["iocount"]:
+        kind = "Other" if fault == "O" else "Eof"
+        if isinstance(n_unrep, tuple):
+            exp.append("ED%d" % n_unrep[0])
+            exp.append("IO%s:%d" % (kind, n_unrep[1]))
+        else:
+            exp.append("IO%s:%d" % (kind, n_unrep))
+    got = [x for x in items][:len(exp)]
+    if got != exp:
+        return "counts attached to I/O errors do not tile the input: got %s expected %s" % (got, exp)
+    rest = items[len(exp):]
+    if any(x != "IOEof:0" for x in rest):
+        return "after the input ended, read() reported %s" % rest[:4]
+    return None
+
+
+# ==========================================================================================
+# C18 ArrayBuf
+# ==========================================================================================
+class C18(Prop):
+    pid = "C18"
+    theorems = [("C18_refines", None)]
+    suite_names = "S-ABUF (abuf, abfrom, abeq)"
+    rule = ("capacities N from the menu (0..40, 255..257, 1024, ...) x operation sequences of up to 40 push/extend_from_slice/truncate/"
+            "clear with sizes clustered at N-1, N, N+1; FromIterator with |l| around N; equality/Debug of two histories. The oracle is "
+            "an ideal bounded vector evaluated in the check. non-trivial = at least one operation changed the contents")
+
+    def gen_ops(self, rng, N, maxops=40):
+        ops = []
+        cur = 0
+        for _ in range(rng.randint(0, maxops)):
+            r = rng.random()
+            if r < 0.35:
+                ops.append("p%02x" % rng.getrandbits(8))
+            elif r < 0.7:
+                room = N - cur
+                k = max(0, rng.choice([room - 1, room, room + 1, rng.randint(0, 6), 0]))
+                k = min(k, 300)
+                ops.append("e" + hx(bytes(rng.getrandbits(8) for _ in range(k))))
+            elif r < 0.9:
+                ops.append("t%d" % max(0, rng.choice([cur - 1, cur, cur + 1, 0, rng.randint(0, N + 2)])))
+            else:
+                ops.append("c")
+            cur = min(N, cur + 1)
+        return ",".join(ops)
+
+    def cases(self, tier, rng):
+        n = 1500 if tier == "quick" else 20000
+        out = []
+        menu = [c for c in gen.CAP_MENU if c <= 300] + [1024]
+        for _ in range(n):
+            N = rng.choice(menu)
+            out.append(Case("abuf %d %s" % (N, self.gen_ops(rng, N) or "c"), "abuf", dict(N=N)))
+        for _ in range(n // 5):
+            N = rng.choice(menu)
+            k = max(0, rng.choice([N - 1, N, N + 1, 0, rng.randint(0, N + 3)]))
+            out.append(Case("abfrom %d %s" % (N, hx(bytes(rng.getrandbits(8) for _ in range(k)))), "abfrom", dict(N=N, k=k)))
+        for _ in range(n // 5):
+            N = rng.choice([c for c in menu if c <= 40])
+            o1 = self.gen_ops(rng, N, 12) or "c"
+            o2 = o1 + ",p00,t%d" % rng.randint(0, N) if rng.random() < 0.4 else (self.gen_ops(rng, N, 12) or "c")
+            out.append(Case("abeq %d %s %s" % (N, o1, o2), "abeq", dict(N=N)))
+        return out
+
+    def nontrivial(self, case, out):
+        return bool(re.search(r"k:[0-9a-f]", out)) or out.startswith("ok:") or out.startswith("eq:")
+
+    @staticmethod
+    def ideal(N, ops):
+        v = bytearray()
+        res = []
+        for tok in ops.split(","):
+            if not tok:
+                continue
+            a = tok[1:]
+            if tok[0] == "p":
+                if len(v) < N:
+                    v.append(int(a, 16)); res.append("k")
+                else:
+                    res.append("o")
+            elif tok[0] == "e":
+                b = unhx(a)
+                if len(v) + len(b) <= N:
+                    v += b; res.append("k")
+                else:
+                    res.append("o")
+            elif tok[0] == "t":
+                del v[int(a):]; res.append("k")
+            else:
+                v.clear(); res.append("k")
+            res[-1] += ":" + hx(v)
+        return res, bytes(v)
+
+    def oracle(self, cases, dbg, rel, spec):
+        bad = []
+        for i, c in enumerate(cases):
+            f = c.line.split(" ")
+            for prof, o in both(dbg, rel, i):
+                why = None
+                if f[0] == "abuf":
+                    exp = ";".join(self.ideal(int(f[1]), f[2])[0]) or "."
+                    if o != exp:
+                        why = "ArrayBuf differs from the ideal bounded vector: got %s expected %s" % (o[:200], exp[:200])
+                elif f[0] == "abfrom":
+                    b = unhx(f[2])
+                    exp = "ok:" + hx(b) if len(b) <= int(f[1]) else "P"
+                    if o != exp:
+                        why = "from_iter: got %s expected %s" % (o[:200], exp[:200])
+                elif f[0] == "abeq":
+                    a = self.ideal(int(f[1]), f[2])[1]
+                    b = self.ideal(int(f[1]), f[3])[1]
+                    exp = "eq:%d:%d:1" % (a == b, a == b)
+                    if o != exp:
+                        why = "equality/Debug do not depend on the visible contents only: got %s expected %s" % (o, exp)
+                if why:
+                    bad.append(dict(case=c.line, why="%s build: %s" % (prof, why)))
+                    break
+        return bad
+
+
+
+# ==========================================================================================
+# parser properties: C03, C04, C06, C09, C12, C13
+# ==========================================================================================
+import refsml
+
+_REAL = None
+
+
+def real_payloads():
+    """payloads decoded from /repo/tests/libsml-testing/*.bin by an independent python TLV-free frame splitter"""
+    global _REAL
+    if _REAL is None:
+        import glob
+        pays = []
+        for f in sorted(glob.glob(os.path.join(lib.REPO, "tests", "libsml-testing", "*.bin"))):
+            d = open(f, "rb").read()
+            i = 0
+            while True:
+                a = d.find(gen.START, i)
+                if a < 0:
+                    break
+                b = d.find(bytes([0x1b] * 4 + [0x1a]), a + 8)
+                if b < 0:
+                    break
+                pad = d[b + 5] if b + 5 < len(d) else 0
+                body = d[a + 8:b]
+                if pad <= 3 and len(body) >= pad and bytes([0x1b] * 4) not in body:
+                    pays.append(bytes(body[:len(body) - pad]))
+                i = b + 8
+        seen = set()
+        _REAL = [p for p in pays if not (p in seen or seen.add(p))]
+    return _REAL
+
+
+def split_parse_out(o):
+    """'complete # items|extras' -> (complete, [items], [extras])"""
+    if " # " not in o:
+        return o, [], []
+    comp, st = o.split(" # ", 1)
+    items, _, extras = st.partition("|")
+    return comp, ([] if items == "." else items.split(";")), ([] if extras == "." else extras.split(";"))
+
+
+def sml_valid_cases(rng, n):
+    out = []
+    for _ in range(n):
+        d, text, evs, _m = gen.gen_file(rng)
+        out.append(Case("parse " + hx(d), "valid", dict(d=d, text=text, evs=evs)))
+    return out
+
+
+def sml_mutant_cases(rng, n):
+    out = []
+    for _ in range(n):
+        d, desc = gen.gen_mutant(rng)
+        out.append(Case("parse " + hx(d), "mut:" + desc, dict(d=d)))
+    return out
+
+
+def real_cases(rng, mutate=0):
+    out = []
+    for p in real_payloads():
+        out.append(Case("parse " + hx(p), "real", dict(d=p)))
+    for _ in range(mutate):
+        p = bytearray(rng.choice(real_payloads()))
+        r = rng.random()
+        if r < 0.5:
+            p[rng.randrange(len(p))] ^= 1 << rng.randrange(8)
+        elif r < 0.7:
+            del p[rng.randrange(len(p)):]
+        elif r < 0.85:
+            p.insert(rng.randrange(len(p)), rng.getrandbits(8))
+        else:
+            del p[rng.randrange(len(p))]
+        out.append(Case("parse " + hx(p), "real-mut", dict(d=bytes(p))))
+    return out
+
+
+def ref_check(c, o):
+    """implementation result vs the independent reference reading; returns complaint or None"""
+    comp, items, extras = split_parse_out(o)
+    r = refsml.parse_file(c.meta["d"])
+    if r[0] == "ok":
+        if comp != r[1]:
+            return "the allocating parser does not return the content of a well-formed file: got %s expected %s" % (comp[:300], r[1][:300])
+        if items != r[2]:
+            return "the streaming parser does not yield the content of a well-formed file: got %s expected %s" % (items[:6], r[2][:6])
+    else:
+        if comp.startswith("ok:"):
+            return "input outside the grammar (%s) accepted by the allocating parser: %s" % (r[1], comp[:300])
+        if items and not any(x.startswith("err:") for x in items):
+            return "input outside the grammar (%s) accepted by the streaming parser: %s" % (r[1], items[:6])
+    return None
+
+
+class ParserProp(Prop):
+    suite_names = "S-PARSE (parse)"
+
+    def project(self, case, out):
+        return out
+
+
+class C03(ParserProp):
+    pid = "C03"
+    theorems = [("C03_complete", None)]
+    rule = ("random SML files (open/close/get-list responses, 0..40 list entries crossing the 15/16 TLF boundary, all ten value "
+            "variants and status widths, every optional field present/absent, both time encodings) x random valid encodings "
+            "(integer width within the class, non-minimal multi-byte TLFs, 1- or 2-byte CRC field) + the real meter payloads of "
+            "tests/libsml-testing. Expected content comes from the generator's AST and from an independent reference reading. "
+            "non-trivial = at least one message")
+
+    def cases(self, tier, rng):
+        return sml_valid_cases(rng, 1500 if tier == "quick" else 20000) + real_cases(rng)
+
+    def nontrivial(self, case, out):
+        return out.startswith("ok:(")
+
+    def oracle(self, cases, dbg, rel, spec):
+        bad = []
+        for i, c in enumerate(cases):
+            for prof, o in both(dbg, rel, i):
+                why = None
+                if "text" in c.meta:
+                    exp = c.meta["text"] + " # " + (";".join(c.meta["evs"]) if c.meta["evs"] else ".") + "|-;-;-"
+                    if o != exp:
+                        why = "valid encoding not parsed to its content: got %s expected %s" % (o[:300], exp[:300])
+                if why is None and "d" in c.meta:
+                    why = ref_check(c, o)
+                if why:
+                    bad.append(dict(case=c.line, why="%s build: %s" % (prof, why)))
+                    break
+        return bad
+
+
+class C04(ParserProp):
+    pid = "C04"
+    theorems = [("C04_sound", None)]
+    rule = ("corruptions of valid files: bit flips, field-start byte replacement, truncation, insertion, deletion, duplicated / "
+            "swapped fields, list-length nibble edits, TLFs replaced by ones declaring arbitrary lengths - message CRC recomputed in "
+            "3/4 of the cases - plus raw flips/truncations/extensions and mutated real payloads. Oracle: the parsers return data iff "
+            "the independent reference reading accepts the bytes, and then the same content. non-trivial = the corrupted input "
+            "reaches past the first TLF")
+
+    def cases(self, tier, rng):
+        return (sml_mutant_cases(rng, 4000 if tier == "quick" else 60000) + sml_valid_cases(rng, 300)
+                + real_cases(rng, 500 if tier == "quick" else 5000) + self.corpus_like())
+
+    def corpus_like(self):
+        return [Case("parse 7681808080808080800ddd434400620062007263020171016390ae00", "d3-witness",
+                     dict(d=bytes.fromhex("7681808080808080800ddd434400620062007263020171016390ae00")))]
+
+    def nontrivial(self, case, out):
+        return not out.startswith("err:Mismatch # err:Mismatch")
+
+    def oracle(self, cases, dbg, rel, spec):
+        bad = []
+        for i, c in enumerate(cases):
+            for prof, o in both(dbg, rel, i):
+                why = ref_check(c, o) if "d" in c.meta else None
+                if why:
+                    bad.append(dict(case=c.line, why="%s build: %s" % (prof, why)))
+                    break
+        return bad
+
+
+# memory bound for the allocating parser: bytes requested <= ALLOC_K * |input| + ALLOC_C
+# (size_of::<ListEntry>() = 88, size_of::<Message>() = 128 on this target; Vec growth doubles)
+ALLOC_K = 88 + 2 * 88 + 4 * 128
+ALLOC_C = 4 * 128 + 4 * 88 + 64
+
+
+class C06(ParserProp):
+    pid = "C06"
+    theorems = [("C06_total", None)]
+    suite_names = "S-PARSE (parse, palloc)"
+    rule = ("valid files, corruptions with recomputed CRC, and valid messages in which any TLF is replaced by one declaring an "
+            "arbitrary length up to and beyond 2^32-1; both parsers in debug and release; the real allocator is instrumented: total "
+            "bytes requested by complete::parse <= %d*|x|+%d and zero requests while iterating streaming::Parser; additionally "
+            "`cargo build --no-default-features` of /repo (streaming parser compiles without alloc). non-trivial = input longer than "
+            "8 bytes" % (ALLOC_K, ALLOC_C))
+
+    def cases(self, tier, rng):
+        out = []
+        n = 1500 if tier == "quick" else 20000
+        base = sml_mutant_cases(rng, n) + sml_valid_cases(rng, n // 3) + real_cases(rng, 200)
+        # every TLF position of a few valid messages replaced by every huge TLF
+        for _ in range(12 if tier == "quick" else 150):
+            m = gen.gen_message(rng, "list", nentries=rng.randint(0, 3))
+            for i in range(len(m["chunks"])):
+                for t in gen.HUGE_TLFS[:14] if tier == "quick" else gen.HUGE_TLFS:
+                    ch = list(m["chunks"])
+                    b = ch[i]
+                    j = 0
+                    while j < len(b) and b[j] & 0x80:
+                        j += 1
+                    ch[i] = t + b[j + 1:]
+                    d = gen.close_message(rng, ch)
+                    base.append(Case("parse " + hx(d), "declared-length", dict(d=d)))
+        for c in base:
+            out.append(c)
+            out.append(Case("palloc " + c.line.split(" ", 1)[1], "alloc:" + c.tag.split(":")[0], dict(d=c.meta["d"], alloc=True)))
+        out.append(Case("parse 7607000b06a5d3c562006200726307017701010171ff8f8f8f8f8f8f0f", "d5d6-witness", dict(d=b"")))
+        out.append(Case("palloc 7607000b06a5d3c562006200726307017701010171ff8f8f8f8f8f8f0f", "d5d6-witness", dict(d=bytes(31), alloc=True)))
+        return out
+
+    def project(self, case, out):
+        if case.line.startswith("palloc"):
+            return ""
+        return "panic" if has_panic(out) else out
+
+    def nontrivial(self, case, out):
+        return len(case.meta.get("d", b"")) > 8
+
+    def oracle(self, cases, dbg, rel, spec):
+        bad = []
+        # static part: the streaming parser builds without the alloc crate
+        rc, out = lib.sh(["timeout", "600", "cargo", "build", "--offline", "--no-default-features", "--lib"], cwd=lib.REPO,
+                         env=dict(lib.ENV, CARGO_TARGET_DIR=os.path.join(lib.BUILD, "target-nodefault")))
+        self.nodefault_build_ok = (rc == 0)
+        if rc != 0:
+            bad.append(dict(case="cargo build --no-default-features --lib", why="the crate no longer builds without the alloc feature (streaming parser must not allocate): " + out[-600:]))
+        for i, c in enumerate(cases):
+            for prof, o in both(dbg, rel, i):
+                why = None
+                if has_panic(o):
+                    why = "a parser panicked / aborted: %s" % o[:200]
+                elif c.meta.get("alloc"):
+                    m = re.match(r"complete=(\w+):bytes=(\d+):calls=(\d+);streaming=(\w+):bytes=(\d+):calls=(\d+)", o)
+                    if not m:
+                        why = "unexpected output " + o[:100]
+                    else:
+                        n = len(unhx(c.line.split(" ")[1]))
+                        if int(m.group(2)) > ALLOC_K * n + ALLOC_C:
+                            why = "complete::parse requested %s bytes of heap for a %d-byte input (bound %d)" % (m.group(2), n, ALLOC_K * n + ALLOC_C)
+                        elif int(m.group(6)) != 0:
+                            why = "the streaming parser allocated (%s requests)" % m.group(6)
+                else:
+                    comp, items, extras = split_parse_out(o)
+                    n = len(unhx(c.line.split(" ")[1]))
+                    if len(items) > n + 1:
+                        why = "streaming iteration longer than the input"
+                if why:
+                    bad.append(dict(case=c.line, why="%s build: %s" % (prof, why)))
+                    break
+        return bad
+
+
+def reassemble(items):
+    """streaming events (canonical strings) -> complete-parser text; None if the event sequence is ill-formed"""
+    msgs = []
+    i = 0
+    while i < len(items):
+        it = items[i]
+        if not it.startswith("(MS "):
+            return None
+        m = re.match(r"^\(MS (\S+) (\S+) (\S+) \(GS (\S+) (\S+) (\S+) (\S+) ([0-9a-f]+)\)\)$", it)
+        if m:
+            n = int(m.group(8), 16)
+            es = items[i + 1:i + 1 + n]
+            if len(es) != n or any(not e.startswith("(E ") for e in es):
+                return None
+            if i + 1 + n >= len(items):
+                return None
+            ge = re.match(r"^\(GE (\S+) (\S+)\)$", items[i + 1 + n])
+            if not ge:
+                return None
+            msgs.append("(M %s %s %s (G %s %s %s %s [%s] %s %s))" % (m.group(1), m.group(2), m.group(3), m.group(4), m.group(5),
+                                                                      m.group(6), m.group(7), " ".join(es), ge.group(1), ge.group(2)))
+            i += n + 2
+        else:
+            msgs.append("(M " + it[4:])
+            i += 1
+    return "ok:" + (" ".join(msgs) if msgs else ".")
+
+
+class C09(ParserProp):
+    pid = "C09"
+    theorems = [("C09_agree", None)]
+    rule = ("valid files, corruptions / truncations / length manipulations with and without recomputed CRC, real payloads and their "
+            "mutations; the streaming events up to the first error are reassembled (Rust vs Rust) and compared with the allocating "
+            "parser's file; error iff error, same kind; n announced values -> exactly n value events and one end event. "
+            "non-trivial = at least one streaming event")
+
+    def cases(self, tier, rng):
+        n = 3000 if tier == "quick" else 50000
+        out = sml_mutant_cases(rng, n) + sml_valid_cases(rng, n // 3) + real_cases(rng, 500 if tier == "quick" else 5000)
+        out.append(Case("parse 7607000b06a5d3c562006200726307017701010171ff8f8f8f8f8f8f0f", "d5-witness"))
+        out.append(Case("parse 7607000b06a5d3c562006200726307017701010171ff8f8f8f8f8f8f0e", "d5-witness"))
+        return out
+
+    def nontrivial(self, case, out):
+        return " # (" in out
+
+    def oracle(self, cases, dbg, rel, spec):
+        bad = []
+        for i, c in enumerate(cases):
+            for prof, o in both(dbg, rel, i):
+                comp, items, extras = split_parse_out(o)
+                why = None
+                errs = [x for x in items if x.startswith("err:")]
+                if comp.startswith("ok:"):
+                    if errs:
+                        why = "allocating parser Ok but streaming parser reports %s" % errs[0]
+                    elif reassemble(items) != comp:
+                        why = "reassembled streaming events differ from the allocating parser's file: %s vs %s" % (str(reassemble(items))[:200], comp[:200])
+                elif comp.startswith("err:"):
+                    if len(errs) != 1 or items[-1] != errs[0]:
+                        why = "allocating parser reports %s but the streaming parser yields %s" % (comp, items[-3:])
+                    elif errs[0] != comp:
+                        why = "error kinds differ: allocating %s, streaming %s" % (comp, errs[0])
+                else:
+                    why = "unexpected output " + comp[:80]
+                if why:
+                    bad.append(dict(case=c.line, why="%s build: %s" % (prof, why)))
+                    break
+        return bad
+
+
+def tlf_probe_list(t):
+    """a get-list response whose val_list TLF is t: the streaming MessageStart shows num_vals"""
+    ch = [b"\x76", b"\x03\xaa\xbb", b"\x62\x00", b"\x62\x00", b"\x72", b"\x63\x07\x01", b"\x77", b"\x01", b"\x02\x55", b"\x01", b"\x01", t]
+    return b"".join(ch)
+
+
+def tlf_probe_value(t, data):
+    """a get-list response with one entry whose value field starts with TLF t followed by data"""
+    pre = tlf_probe_list(b"\x71") + b"\x77" + b"\x02\x11" + b"\x01\x01\x01\x01" + t + data + b"\x01" + b"\x01\x01"
+    c = gen.crc16(pre)
+    return pre + bytes([0x63, c & 0xFF, c >> 8, 0x00])
+
+
+class C12(ParserProp):
+    pid = "C12"
+    theorems = [("C12_tlf", None)]
+    rule = ("TLF byte sequences of 1..12 bytes placed (a) as the list TLF of a get-list response (the streaming parser exposes the "
+            "full 32-bit count) and (b) as the TLF of a value field followed by enough data: quick = all 1- and 2-byte TLFs and "
+            "random/structured longer ones (values around 2^32, leading zero nibbles, reserved type bits), thorough = all 2^24 "
+            "sequences of up to 3 bytes; integers of width 1..8 with every leading byte x sampled tails, signed and unsigned, in "
+            "Value and Status position; all boolean bytes. Oracle: independent reference reading on unbounded integers. "
+            "non-trivial = the probe reaches the TLF under test")
+
+    def cases(self, tier, rng):
+        out = []
+        tl = [bytes([a]) for a in range(256)] + [bytes([a, b]) for a in range(128, 256) for b in range(256)]
+        if tier == "thorough":
+            tl += [bytes([a, b, c]) for a in range(128, 256) for b in range(128, 256) for c in range(256)]
+        else:
+            for _ in range(3000):
+                k = rng.randint(3, 12)
+                first = 0x80 | (rng.choice([0, 4, 5, 6, 7, 1, 2, 3]) << 4) | rng.randrange(16)
+                mid = [0x80 | (rng.choice([0] * 12 + [1, 7]) << 4) | rng.choice([0, 0, 0, 15, 1, rng.randrange(16)]) for _ in range(k - 2)]
+                last = (rng.choice([0] * 12 + [1]) << 4) | rng.randrange(16)
+                tl.append(bytes([first] + mid + [last]))
+            for V in [2 ** 32 - 1, 2 ** 32, 2 ** 32 + 1, 2 ** 32 + 13, 2 ** 31, 2 ** 28, 2 ** 36, 2 ** 32 - 16, 0, 15, 16, 17, 255, 256]:
+                for ty in (0, 5, 6, 7):
+                    for k in range(max(1, (V.bit_length() + 3) // 4), 13):
+                        tl.append(gen.tlf_bytes(ty, V, k))
+        for t in tl:
+            d = tlf_probe_list(t)
+            out.append(Case("parse " + hx(d), "tlf-list", dict(d=d)))
+            if len(t) <= 2 or rng.random() < 0.2:
+                d = tlf_probe_value(t, bytes(rng.getrandbits(8) for _ in range(rng.choice([0, 1, 2, 4, 8, 16, 20]))))
+                out.append(Case("parse " + hx(d), "tlf-value", dict(d=d)))
+        # integers: width x signedness x leading byte x tails
+        for ty in (5, 6):
+            for k in range(1, 10):
+                for lead in range(256) if (tier == "thorough" or k <= 2) else list(range(0, 256, 7)) + [0x7f, 0x80, 0xff]:
+                    tail = bytes(rng.choice([0, 0xff, 0x80, 0x7f, rng.getrandbits(8)]) for _ in range(k - 1))
+                    d = tlf_probe_value(gen.tlf_bytes(ty, k + 1, 1) if k < 15 else b"", bytes([lead]) + tail)
+                    out.append(Case("parse " + hx(d), "int", dict(d=d)))
+        for b in range(256):
+            d = tlf_probe_value(b"\x42", bytes([b]))
+            out.append(Case("parse " + hx(d), "bool", dict(d=d)))
+        for _ in range(300):
+            n = rng.choice([0, 1, 14, 15, 16, 17, 30, 255, 256, 300])
+            data = bytes(rng.getrandbits(8) for _ in range(n))
+            d = tlf_probe_value(gen.prim_tlf(rng, 0, n, nonmin=0.3), data + bytes(rng.randint(0, 3)))
+            out.append(Case("parse " + hx(d), "octet", dict(d=d)))
+        return out
+
+    def nontrivial(self, case, out):
+        return True
+
+    def oracle(self, cases, dbg, rel, spec):
+        bad = []
+        for i, c in enumerate(cases):
+            for prof, o in both(dbg, rel, i):
+                why = None
+                comp, items, extras = split_parse_out(o)
+                if c.tag == "tlf-list":
+                    # reference: the TLF alone
+                    d = c.meta["d"]
+                    pos = len(tlf_probe_list(b""))
+                    try:
+                        ty, ln, j = refsml.read_tlf(d, pos)
+                        ok = (ty == 7)
+                    except refsml.Bad:
+                        ok = False
+                    got = re.search(r"\(GS \S+ \S+ \S+ \S+ ([0-9a-f]+)\)\)$", items[0]) if items else None
+                    if ok and (not got or int(got.group(1), 16) != ln):
+                        why = "list TLF %s: prescribed count %d, parser used %s" % (hx(d[pos:]), ln, items[:1])
+                    if not ok and got:
+                        why = "ill-formed / non-list TLF %s accepted as a list of %s" % (hx(d[pos:]), got.group(1))
+                else:
+                    why = ref_check(c, o)
+                if why:
+                    bad.append(dict(case=c.line, why="%s build: %s" % (prof, why)))
+                    break
+        return bad
+
+
+class C13(ParserProp):
+    pid = "C13"
+    theorems = [("C13_term", None)]
+    rule = ("valid files, corruptions (bad checksum in the middle of a multi-message file, truncated or corrupt lists), real payloads; "
+            "next() is called until None (at most |x|+2 times) and then 3 more times. Oracle: at most |x|+1 items, at most one error "
+            "and only as the last item, every later call None. non-trivial = at least one item")
+
+    def cases(self, tier, rng):
+        n = 3000 if tier == "quick" else 50000
+        out = sml_mutant_cases(rng, n) + sml_valid_cases(rng, n // 3) + real_cases(rng, 300)
+        out.append(Case("parse 760501188e6162006200726302017101634d8700", "d4-witness"))
+        return out
+
+    def project(self, case, out):
+        comp, items, extras = split_parse_out(out)
+        return "%d/%s/%s" % (len(items), ";".join(x for x in items if x.startswith("err:") or x == "P"), ";".join(extras))
+
+    def nontrivial(self, case, out):
+        return " # .|" not in out
+
+    def oracle(self, cases, dbg, rel, spec):
+        bad = []
+        for i, c in enumerate(cases):
+            n = len(unhx(c.line.split(" ")[1]))
+            for prof, o in both(dbg, rel, i):
+                comp, items, extras = split_parse_out(o)
+                why = None
+                errs = [k for k, x in enumerate(items) if x.startswith("err:")]
+                if len(items) > n + 1:
+                    why = "%d items from %d input bytes" % (len(items), n)
+                elif len(errs) > 1 or (errs and errs[0] != len(items) - 1):
+                    why = "the iteration continues after an error: %s" % items[-4:]
+                elif extras != ["-", "-", "-"]:
+                    why = "next() after the end of the iteration yields %s" % extras
+                if why:
+                    bad.append(dict(case=c.line, why="%s build: %s" % (prof, why)))
+                    break
+        return bad
+
+
+# ==========================================================================================
+# C10 end to end, C11 I/O faults
+# ==========================================================================================
+def split_top(o):
+    """split on ';' outside of {...}"""
+    out, depth, cur = [], 0, []
+    for ch in o:
+        if ch == "{":
+            depth += 1
+        elif ch == "}":
+            depth -= 1
+        if ch == ";" and depth == 0:
+            out.append("".join(cur))
+            cur = []
+        else:
+            cur.append(ch)
+    out.append("".join(cur))
+    return out
+
+
+class C10(Prop):
+    pid = "C10"
+    theorems = [("C10_compose", None)]
+    suite_names = "S-FRONT (rd)"
+    rule = ("sequences of 0..3 SML files, each framed, separated by noise strings that contain the start sequence only at their end, "
+            "optionally trailing noise; sources slice / iterator / io::Read; buffers default 8 KiB, ArrayBuf<N> (N >= payload), Vec; "
+            "every per-call choice of read/next and of DecodedBytes/File/Parser. Expected results are computed from the generator's "
+            "files. non-trivial = at least one file in the transmission")
+
+    def cases(self, tier, rng):
+        n = 1000 if tier == "quick" else 12000
+        out = []
+        for _ in range(n):
+            s, parts = transmission(rng, sml=True, bad=0.0)
+            tailn = gen.clean_noise(rng, 6) if rng.random() < 0.3 else b""
+            # trailing noise must not look like the beginning of a frame for the expectation below
+            s2 = s + tailn
+            kind = rng.choice(["slice", "iter", "io"])
+            maxp = max([len(p[2]) for p in parts] + [0])
+            caps = ["-", "default"] + [str(c) for c in [16, 32, 64, 256, 1024, 8192] if c >= maxp]
+            cap = rng.choice(caps)
+            nitems = sum(1 + (1 if p[1] else 0) for p in parts) + 2
+            calls = "".join(rng.choice("rn") + rng.choice("bfp") for _ in range(nitems + rng.randint(0, 3)))
+            out.append(Case("rd %s %s %s %s" % (kind, cap, ("x" + hx(s2)) if s2 else "x.", calls), "e2e-" + kind,
+                            dict(parts=parts, tail=tailn, calls=calls)))
+        return out
+
+    def nontrivial(self, case, out):
+        return any(p[0] == "frame" and p[3] for p in case.meta.get("parts", []))
+
+    def expected(self, c):
+        stream = []
+        for (k, g, d, text, evs) in c.meta["parts"]:
+            if g:
+                stream.append(("err", "ED%d" % len(g)))
+            stream.append(("data", d, text, evs))
+        if c.meta["tail"]:
+            stream.append(("err", "IOEof:%d" % len(c.meta["tail"])))
+        calls = c.meta["calls"]
+        out = []
+        for i in range(len(calls) // 2):
+            m, t = calls[2 * i], calls[2 * i + 1]
+            if i < len(stream):
+                it = stream[i]
+                if it[0] == "err":
+                    out.append(it[1])
+                else:
+                    d, text, evs = it[1], it[2], it[3]
+                    if t == "b":
+                        out.append("M" + hx(d))
+                    elif text is None:
+                        out.append(None)         # raw payload: whatever the parser says (checked by C09/C04)
+                    elif t == "f":
+                        out.append("F{%s}" % text)
+                    else:
+                        out.append("V{%s}" % (";".join(evs) if evs else "."))
+            else:
+                out.append("-" if m == "n" else "IOEof:0")
+        return out
+
+    def oracle(self, cases, dbg, rel, spec):
+        bad = []
+        for i, c in enumerate(cases):
+            if "parts" not in c.meta:
+                continue
+            exp = self.expected(c)
+            for prof, o in both(dbg, rel, i):
+                got = split_top(o) if o != "." else []
+                ok = len(got) == len(exp) and all(e is None or e == g for e, g in zip(exp, got))
+                if not ok:
+                    k = next((j for j, (e, g) in enumerate(zip(exp, got)) if e is not None and e != g), min(len(exp), len(got)))
+                    bad.append(dict(case=c.line, why="%s build: call %d: got %s expected %s" % (prof, k, got[k:k + 1], exp[k:k + 1])))
+                    break
+        return bad
+
+
+class C11(Prop):
+    pid = "C11"
+    theorems = [("C11_wouldblock", None)]
+    suite_names = "S-IO (rd)"
+    rule = ("byte streams (frames, corrupted frames, noise) x fault vectors: WouldBlock / Interrupted at arbitrary inter-byte "
+            "positions (any finite number in a row), one Other error at an arbitrary position, end of input at any cut; io::Read and "
+            "embedded-hal sources. Oracle (Rust vs Rust): results with the would-block items removed equal the fault-free run and "
+            "each would-block surfaces once with zero discarded bytes; after an Other error the reader continues like a fresh reader "
+            "on the remaining stream and the attached count equals the bytes since the last report; next() returns None at end of "
+            "input iff nothing is pending, and again on further calls. non-trivial = at least one fault injected")
+
+    def cases(self, tier, rng):
+        n = 900 if tier == "quick" else 10000
+        out = []
+        g = 0
+        for _ in range(n):
+            s, parts = transmission(rng, sml=False, maxpay=24, bad=0.3)
+            if rng.random() < 0.3:
+                s = s[:rng.randint(0, len(s))]
+            kind = rng.choice(["io", "io", "eh"])
+            cap = rng.choice(["-", "64", "8192", "default"])
+            base_calls = len(s) // 8 + 6
+            fam = rng.random()
+            g += 1
+            if fam < 0.6:
+                # transparent faults only
+                toks = []
+                i = 0
+                nw = 0
+                menu = ["W", "W", "I"] if kind == "io" else ["W"]
+                while True:
+                    for _k in range(rng.choice([0, 0, 1, 1, 2, 3])):
+                        f = rng.choice(menu)
+                        toks.append(f)
+                        nw += f == "W"
+                    if i >= len(s):
+                        break
+                    j = min(len(s), i + rng.randint(1, 12))
+                    toks.append("x" + hx(s[i:j]))
+                    i = j
+                meth = "n" if kind == "io" else "r"
+                calls_f = (meth + "b") * (base_calls + nw)
+                calls_0 = (meth + "b") * base_calls
+                out.append(Case("rd %s %s %s %s" % (kind, cap, ",".join(toks) or "x.", calls_f), "wb-faulty", dict(grp=g, role="faulty", nw=nw, kind=kind)))
+                out.append(Case("rd %s %s %s %s" % (kind, cap, ("x" + hx(s)) if s else "x.", calls_0), "wb-clean", dict(grp=g, role="clean", kind=kind)))
+            elif fam < 0.85:
+                # one Other error at position k
+                k = rng.randint(0, len(s))
+                a, b = s[:k], s[k:]
+                meth = "n" if kind == "io" else "r"
+                calls = (meth + "b") * base_calls
+                ev_full = ",".join(x for x in ["x" + hx(a) if a else "", "O", "x" + hx(b) if b else ""] if x)
+                out.append(Case("rd %s %s %s %s" % (kind, cap, ev_full, calls), "other-full", dict(grp=g, role="full", a=a, kind=kind)))
+                out.append(Case("rd %s %s %s %s" % (kind, cap, ("x" + hx(b)) if b else "x.", calls), "other-rest", dict(grp=g, role="rest", kind=kind)))
+                out.append(Case("dec %s %s" % ("8192" if cap == "default" else cap, ("x" + hx(a) + ",R") if a else "R"), "other-count", dict(grp=g, role="count")))
+            else:
+                # end of input at a cut, many further calls
+                k = rng.randint(0, len(s))
+                a = s[:k]
+                calls = "nb" * (base_calls + 3)
+                out.append(Case("rd io %s %s %s" % (cap, ("x" + hx(a)) if a else "x.", calls), "eof", dict(grp=g, role="eof", a=a)))
+                out.append(Case("dec %s %s" % ("8192" if cap == "default" else cap, ("x" + hx(a) + ",F") if a else "F"), "eof-fin", dict(grp=g, role="fin")))
+        return out
+
+    def nontrivial(self, case, out):
+        return case.meta.get("role") in ("faulty", "full", "eof")
+
+    def oracle(self, cases, dbg, rel, spec):
+        bad = []
+        groups = {}
+        for i, c in enumerate(cases):
+            if "grp" in c.meta:
+                groups.setdefault(c.meta["grp"], {})[c.meta["role"]] = i
+        for g, d in groups.items():
+            for prof, outs in (("debug", dbg), ("release", rel)):
+                why = None
+                where = None
+                def trim(items):
+                    # drop the end-of-input tail (None / WouldBlock forever / Eof:0)
+                    while items and items[-1] in ("-", "IOEof:0", "IOWouldBlock:0"):
+                        items.pop()
+                    return items
+                if "faulty" in d:
+                    fa = outs[d["faulty"]].split(";")
+                    cl = outs[d["clean"]].split(";")
+                    nw = cases[d["faulty"]].meta["nw"]
+                    kind = cases[d["faulty"]].meta["kind"]
+                    wb = [x for x in fa if x == "IOWouldBlock:0"]
+                    rest = [x for x in fa if x != "IOWouldBlock:0"]
+                    if kind == "io":
+                        if len(wb) != nw:
+                            why = "%d would-block conditions surfaced %d times" % (nw, len(wb))
+                        elif trim(rest) != trim(cl):
+                            why = "would-block/interrupted changed the decoded results: %s vs fault-free %s" % (trim(rest)[:6], trim(cl)[:6])
+                    else:
+                        # embedded-hal source: end of input also blocks; compare the non-would-block results
+                        if trim(rest) != trim([x for x in cl if x != "IOWouldBlock:0"]):
+                            why = "would-block changed the decoded results: %s vs fault-free %s" % (rest[:6], cl[:6])
+                    where = cases[d["faulty"]].line + " || " + cases[d["clean"]].line
+                elif "full" in d:
+                    fu = outs[d["full"]].split(";")
+                    re_ = outs[d["rest"]].split(";")
+                    cnt = parse_events(outs[d["count"]])
+                    where = cases[d["full"]].line + " || " + cases[d["rest"]].line
+                    ks = [k for k, x in enumerate(fu) if x.startswith("IOOther:")]
+                    if len(ks) != 1:
+                        why = "one Other fault surfaced %d times: %s" % (len(ks), fu[:8])
+                    else:
+                        k = ks[0]
+                        n_expected = int(cnt[-1][2]) if cnt and cnt[-1][1] == "R" else None
+                        if n_expected is not None and fu[k] != "IOOther:%d" % n_expected:
+                            why = "count attached to the I/O error is %s, but %d bytes were pending" % (fu[k], n_expected)
+                        elif trim(fu[k + 1:]) != trim(re_):
+                            why = "after an I/O error reading does not continue like a fresh reader: %s vs %s" % (fu[k + 1:k + 7], re_[:6])
+                elif "eof" in d:
+                    eo = outs[d["eof"]].split(";")
+                    fin = parse_events(outs[d["fin"]])
+                    where = cases[d["eof"]].line
+                    pending = fin[-1][2] if fin and fin[-1][1] == "F" else "-"
+                    # the results before end of input are those of the push decoder; then the leftover report, then None forever
+                    first_none = next((k for k, x in enumerate(eo) if x == "-"), None)
+                    if first_none is None:
+                        why = "next() never returned None at end of input: %s" % eo[-4:]
+                    elif any(x != "-" for x in eo[first_none:]):
+                        why = "next() returned something after None: %s" % eo[first_none:first_none + 4]
+                    else:
+                        last = eo[first_none - 1] if first_none > 0 else None
+                        if pending == "-":
+                            if last is not None and last.startswith("IOEof"):
+                                why = "nothing pending at end of input but %s was reported" % last
+                        else:
+                            n = pending[2:]    # ED<n>
+                            if last != "IOEof:" + n:
+                                why = "pending %s bytes at end of input but the last result is %s" % (n, last)
+                if why:
+                    bad.append(dict(case=where, why="%s build: %s" % (prof, why)))
+                    break
+        return bad
+
+
 REGISTRY = {"C02": C02}
 
 NOT_CLAIMED = {}
